@@ -198,6 +198,12 @@ func (s *Stump) add(adds []Hash) ([]Hash, []uint64, []uint64) {
 			}
 		}
 
+		// A leaf that didn't get hashed with any root is a root by itself.
+		// Record it as well so that every added leaf has its position.
+		if newRoot == add {
+			updatedNodes[add] = pos
+		}
+
 		s.Roots = append(s.Roots, newRoot)
 		s.NumLeaves++
 	}
